@@ -6,6 +6,8 @@
 //	f64   `f64op` lines validating the binary64 model GoSem.F64 against the hardware
 //	glue  implementation-side identity oracle for fmt / encoding/json / yaml.v3 / text / Scan plumbing (no Lean model)
 //	scan  fmt.Scanner entry points: Sscan/Sscanf/Sscanln/Fscan/Fscanf of a token vs the model's fromString of that token
+//	format fmt.Formatter: Format(state), Sprintf and Sscanf of the text vs the model Conv.*.format / scan of the token
+//	words FromBigInt / ToBigInt at the level of big.Words (Bits() before and after) vs the word-level model, both word sizes
 package main
 
 import (
@@ -129,8 +131,52 @@ func yamlFeeder(s string) func(any) error {
 	}
 }
 
+// extraOps: the remaining entry points, common to both types (l = the value as a loader on a sentinel receiver).
+//
+//	yamlcb <mode> <hex text>     UnmarshalYAML with a callback that stores the text (ok), stores nothing (none) or fails (err)
+//	scantok <mode> <verb> <hex>  Scan with a ScanState whose Token delivers the token (ok) or fails (err)
+//	float64m <hi:lo>             Float64() of the json.Number interface
+//	asbigfloat <hi:lo>           AsBigFloat(): precision, exact integer value, accuracy
+func yamlCallback(mode, text string) func(any) error {
+	switch mode {
+	case "ok":
+		return yamlFeeder(text)
+	case "none":
+		return func(any) error { return nil }
+	default:
+		return func(any) error { return errSentinel }
+	}
+}
+
+func scanStateFor(mode, tok string) *fakeState {
+	if mode == "ok" {
+		return &fakeState{tok: []byte(tok)}
+	}
+	return &fakeState{err: errSentinel}
+}
+
+func bigFloatStr(f *big.Float) string {
+	z, acc := f.Int(nil)
+	return fmt.Sprintf("%d %s %s %v", f.Prec(), z.Text(16), acc, f.IsInt())
+}
+
 func runU(op string, a []string) string {
 	switch op {
+	case "yamlcb":
+		r := mkU(sentinelHi, sentinelLo)
+		e := r.UnmarshalYAML(yamlCallback(a[0], string(hx.UnHex(a[1]))))
+		return okErr(e) + "/" + ustr(r)
+	case "scantok":
+		r := mkU(sentinelHi, sentinelLo)
+		e := r.Scan(scanStateFor(a[0], string(hx.UnHex(a[2]))), rune(a[1][0]))
+		return okErr(e) + "/" + ustr(r)
+	case "float64m":
+		if f, err := mkU(parsePair(a[0])).Float64(); err != nil && f == 0 {
+			return "err"
+		}
+		return "ok"
+	case "asbigfloat":
+		return bigFloatStr(mkU(parsePair(a[0])).AsBigFloat())
 	case "fromfloat":
 		return ustr(num.Uint128FromFloat64(math.Float64frombits(parseU64(a[0]))))
 	case "asfloat":
@@ -183,6 +229,21 @@ func runU(op string, a []string) string {
 
 func runI(op string, a []string) string {
 	switch op {
+	case "yamlcb":
+		r := mkI(sentinelHi, sentinelLo)
+		e := r.UnmarshalYAML(yamlCallback(a[0], string(hx.UnHex(a[1]))))
+		return okErr(e) + "/" + istr(r)
+	case "scantok":
+		r := mkI(sentinelHi, sentinelLo)
+		e := r.Scan(scanStateFor(a[0], string(hx.UnHex(a[2]))), rune(a[1][0]))
+		return okErr(e) + "/" + istr(r)
+	case "float64m":
+		if f, err := mkI(parsePair(a[0])).Float64(); err != nil && f == 0 {
+			return "err"
+		}
+		return "ok"
+	case "asbigfloat":
+		return bigFloatStr(mkI(parsePair(a[0])).AsBigFloat())
 	case "fromfloat":
 		return istr(num.Int128FromFloat64(math.Float64frombits(parseU64(a[0]))))
 	case "asfloat":
@@ -312,5 +373,5 @@ func f64Run(line string) string {
 }
 
 func main() {
-	hx.Main(map[string]hx.Area{"conv": conv{}, "f64": f64area{}, "glue": glue{}, "scan": scanArea{}})
+	hx.Main(map[string]hx.Area{"conv": conv{}, "f64": f64area{}, "glue": glue{}, "scan": scanArea{}, "words": wordsArea{}, "format": formatArea{}})
 }
